@@ -22,7 +22,10 @@ RULE = ("scenario = one scheduler (threading or asyncio; no timezone or a fixed 
 ASSUMPTIONS = ["width = number of code points (display width of wide/combining characters is not claimed)",
                "repr() of arbitrary user objects is outside the model"]
 
-KINDS = ["function", "lambda", "builtin", "method", "partial", "instance", "class"]
+KINDS = ["function", "lambda", "builtin", "method", "partial", "instance", "class",
+         # wrappers around things that are not plain functions (no __code__ / __qualname__ of their own)
+         "partial-builtin", "partial-instance", "partial-method", "partial-partial", "partial-class", "builtin-method",
+         "lru", "wrapped", "classmethod", "staticmethod", "methodcaller"]
 ALIASES = [None, None, "", "a", "short alias", "x" * 16, "y" * 17, "a very long alias that does not fit into sixteen", "zeile\numbruch",
            "tab\tulator", "ünïcödé-ålias-ÿ", "日本語のエイリアス名称テスト十七文字以上", "#", "nul\x00char"]
 
@@ -51,12 +54,50 @@ class _AInst:
         return None
 
 
+class _Holder:
+    @classmethod
+    def cm(cls, *a, **k):
+        return None
+
+    @staticmethod
+    def sm(*a, **k):
+        return None
+
+    @classmethod
+    async def acm(cls, *a, **k):
+        return None
+
+    @staticmethod
+    async def asm(*a, **k):
+        return None
+
+
+def _wrapped(f):
+    @functools.wraps(f)
+    def inner(*a, **k):
+        return f(*a, **k)
+    return inner
+
+
 def make_callable(kind, aio):
+    import operator
     if aio:
         return {"function": _afn, "lambda": (lambda *a, **k: _afn()), "builtin": _afn, "method": _AInst().meth,
-                "partial": functools.partial(_afn, 1), "instance": _AInst(), "class": _AInst}[kind]
+                "partial": functools.partial(_afn, 1), "instance": _AInst(), "class": _AInst,
+                "partial-builtin": functools.partial(_AInst(), 1), "partial-instance": functools.partial(_AInst(), 1),
+                "partial-method": functools.partial(_AInst().meth, 1),
+                "partial-partial": functools.partial(functools.partial(_AInst(), 1), 2),
+                "partial-class": functools.partial(_Holder.acm, 1), "builtin-method": _AInst().meth,
+                "lru": _wrapped(_afn), "wrapped": _wrapped(_afn), "classmethod": _Holder.acm, "staticmethod": _Holder.asm,
+                "methodcaller": functools.partial(_Holder.asm)}[kind]
     return {"function": _fn, "lambda": (lambda *a, **k: None), "builtin": print, "method": _Inst().meth,
-            "partial": functools.partial(_fn, 1), "instance": _Inst(), "class": _Inst}[kind]
+            "partial": functools.partial(_fn, 1), "instance": _Inst(), "class": _Inst,
+            "partial-builtin": functools.partial(print, "x", end=""), "partial-instance": functools.partial(_Inst(), 1),
+            "partial-method": functools.partial(_Inst().meth, 1),
+            "partial-partial": functools.partial(functools.partial(_Inst(), 1), 2),
+            "partial-class": functools.partial(_Inst), "builtin-method": [].append if False else {}.get,
+            "lru": functools.lru_cache(maxsize=None)(_fn), "wrapped": _wrapped(_fn), "classmethod": _Holder.cm,
+            "staticmethod": _Holder.sm, "methodcaller": operator.methodcaller("strip")}[kind]
 
 
 def scenarios(rng, n, tier):
